@@ -48,6 +48,13 @@ CTORS = {
     "allocate": "return allocate(n);",
     "arr_add": "return allocate(n / 2) + allocate(n - n / 2);",
     "arr_addeq": "a = allocate(n / 2); a += allocate(n - n / 2); return a;",
+    "arr_addeq_self": "a = allocate((n + 1) / 2); a += a; return a;",
+    "arr_add_self": "a = allocate((n + 1) / 2); return a + a;",
+    "arr_doubling": "a = ({ 1 }); while (sizeof(a) < n) a += a; return a;",
+    "str_addeq_self": "s = repeat_string(\"a\", (n + 1) / 2); s += s; return s;",
+    "str_doubling": "s = \"a\"; while (strlen(s) < n) s += s; return s;",
+    "map_addeq_self": "m = mk(n / 2); m += m; return m;",
+    "buf_addeq_self": "v = allocate_buffer((n + 1) / 2); v += v; return v;",
     "explode": "return explode(repeat_string(\"x,\", n), \",\");",
     "keys": "return keys(mk(n));",
     "values": "return values(mk(n));",
@@ -72,7 +79,8 @@ CTORS = {
     "replace_string": "return replace_string(repeat_string(\"x\", n / 2), \"x\", \"xy\");",
     "upper": "return upper_case(repeat_string(\"x\", n));",
 }
-KIND = {"allocate": "array", "arr_add": "array", "arr_addeq": "array", "explode": "array", "keys": "array", "values": "array",
+KIND = {"arr_addeq_self": "array", "arr_add_self": "array", "arr_doubling": "array", "str_addeq_self": "string", "str_doubling": "string",
+        "map_addeq_self": "mapping", "buf_addeq_self": "buffer", "allocate": "array", "arr_add": "array", "arr_addeq": "array", "explode": "array", "keys": "array", "values": "array",
         "map_array": "array", "filter": "array", "sort": "array", "unique_array": "array", "arr_range_assign": "array",
         "allocate_mapping": "mapping", "map_add": "mapping", "map_addeq": "mapping", "map_insert": "mapping", "map_mapping": "mapping",
         "allocate_buffer": "buffer", "buf_add": "buffer",
@@ -85,7 +93,7 @@ def sizes_src():
            "mapping mk2(int from, int n) { mapping m = ([ ]); int i; for (i = 0; i < n; i++) m[from + i] = i; return m; }",
            "mapping mk(int n) { return mk2(0, n); }"]
     for k, body in CTORS.items():
-        src.append("mixed c_%s(int n) { mixed *a; mapping m; string s; %s }" % (k, body))
+        src.append("mixed c_%s(int n) { mixed *a; mapping m; string s; mixed v; %s }" % (k, body))
     src.append('''void build(string k, int n) {
   mixed v, e;
   string kind; int sz;
